@@ -14,7 +14,7 @@ Definition arrivals (ops : list op) : list ev :=
 Definition windows_of (o : out) : list (list ev) :=
   match o with
   | OWin l => [l]
-  | OParts ps => map snd ps
+  | OParts ps | OFlat ps => map snd ps
   | _ => []
   end.
 Definition all_windows (outs : list out) : list (list ev) := flat_map windows_of outs.
